@@ -14,6 +14,7 @@ import (
 
 	"github.com/Vedant9500/WTF/internal/cache"
 	"github.com/Vedant9500/WTF/internal/database"
+	"github.com/Vedant9500/WTF/internal/embedding"
 	"github.com/Vedant9500/WTF/verifharness/gen"
 	"github.com/Vedant9500/WTF/verifharness/stat"
 	"pgregory.net/rapid"
@@ -60,6 +61,33 @@ func TestC11_Programs(t *testing.T) {
 		}
 		// sequential answers first, computed on a twin so that the database under test is still untouched
 		twin := gen.Load(t, cmds)
+		withEmb := rapid.Bool().Draw(t, "embeddings")
+		if withEmb {
+			// an embedding index attached (as after LoadEmbeddings with asset files): the semantic
+			// stage then runs inside every search; each database gets its own copy of the index
+			dim := rapid.SampledFrom([]int{3, 8, 50}).Draw(t, "dim")
+			comp := rapid.Float32Range(-1, 1)
+			wv := map[string][]float32{}
+			for _, w := range append(append([]string{}, toks...), "find", "files") {
+				wv[w] = rapid.SliceOfN(comp, dim, dim).Draw(t, "wv")
+			}
+			ce := make([][]float32, len(cmds))
+			for i := range ce {
+				ce[i] = rapid.SliceOfN(comp, dim, dim).Draw(t, "ce")
+			}
+			mk := func() *embedding.Index {
+				x := &embedding.Index{Dimension: dim, WordVectors: map[string][]float32{}}
+				for k, v := range wv {
+					x.WordVectors[k] = append([]float32(nil), v...)
+				}
+				for _, v := range ce {
+					x.CmdEmbeddings = append(x.CmdEmbeddings, append([]float32(nil), v...))
+				}
+				return x
+			}
+			database.VerifSetEmbeddingIndex(db, mk())
+			database.VerifSetEmbeddingIndex(twin, mk())
+		}
 		want := map[[2]int][]rankItem{}
 		for qi, q := range queries {
 			for oi, o := range opts {
@@ -174,7 +202,7 @@ func TestC11_Programs(t *testing.T) {
 			saveCase("C11", "program", map[string]any{"test": "TestC11_Programs", "note": "schedule-dependent: re-run the check; the program is recorded for inspection", "queries": queries, "program": lines, "failures": failures, "db": gen.BriefDB(cmds, 20)})
 			t.Fatalf("%s\n GOMAXPROCS=%d queries=%q\n program:\n%s", strings.Join(failures, "\n"), procs, queries, strings.Join(lines, "\n"))
 		}
-		rec.Case(shared, map[string]any{"goroutines": g, "ops_each": k, "gomaxprocs": procs, "queries": queries, "g0": fmt.Sprint(prog[0])}, "programs", fmt.Sprintf("gomaxprocs:%d", procs))
+		rec.Case(shared, map[string]any{"goroutines": g, "ops_each": k, "gomaxprocs": procs, "queries": queries, "g0": fmt.Sprint(prog[0]), "embeddings": withEmb}, "programs", fmt.Sprintf("gomaxprocs:%d", procs), fmt.Sprintf("embeddings:%v", withEmb))
 	})
 }
 
